@@ -184,7 +184,8 @@ theorem nodes_inv (ops : List Op) (c : LState)
 
 /-! ### Pointer level: the relinking code of List.hpp -/
 
-/-- `insert(position, value)`, `remove(iterator)`, `clear()` and `sort()` (the quicksort with item pointers,
+/-- `insert(position, value)`, `insert(position, list)` (the loop inserting in front of one fixed item),
+    `remove(iterator)`, `remove(value)` (with the `find` loop), `clear()` and `sort()` (the quicksort with item pointers,
     `ptr->next` heap reads and the `ptr2 != right` pointer comparison) written statement by statement over a heap
     of items with `value/prev/next` fields, the end sentinel, `_begin`, `freeItem` and 4-item blocks
     (PtrModel.lean), run on ANY history (iterators obtained by walking `next` from `begin()` as a client does):
